@@ -148,10 +148,19 @@ func runC19(r *rt.Run) {
 	c19UlpGrid(r)
 	c19NegZero(r)
 	c19MixedScale(r)
+	c19LevelWithEnd(r)
 	r.Sample(map[string]any{"segment_pair": []any{segG(geometry.Point{X: 0, Y: 1}, geometry.Point{X: 0, Y: 2}), segG(geometry.Point{X: 0, Y: 0}, geometry.Point{X: 0, Y: 3})}, "note": "nested collinear pair (needs 4 collinear lattice points)"})
 }
 
 func evalC19(c *rt.Case) (bool, string, string, error) {
+	if c.Kind == "level-with-end" {
+		if len(c.Nums) != 7 {
+			return false, "", "", fmt.Errorf("malformed case")
+		}
+		n := c.Nums
+		bad, exp, got := c19LevelEval(int64(n[0]), int64(n[1]), int64(n[2]), int64(n[3]), int(n[4]), int(n[5]), int64(n[6]))
+		return bad, exp, got, nil
+	}
 	if c.Kind == "mixed-scale" {
 		return evalC19MixedScale(c)
 	}
